@@ -733,6 +733,13 @@ func runTsRun(tier string, seed int64, model string, replay string) *corr.Result
 			}
 		}
 
+		// -- oracle 0 (needs no expectation): a run is reported as passed, failed or skipped — a Go panic
+		// escaping from the script loop (no custom command of this harness panics) is none of these
+		res.OracleChecked[owner[0]]++
+		if impl[i].verdict == "crash" {
+			res.Violate(owner[0], in, "the run ended in a Go panic instead of a reported verdict: "+impl[i].note+" ["+c.recipe+"]", "run-crashed")
+		}
+
 		// -- oracle 1: the generator's expectation
 		if c.exp != nil {
 			res.OracleChecked[owner[0]]++
